@@ -20,12 +20,12 @@ COMPONENTS = {"real": ["Atoms.save / save_lmpdat / load / load_lmpdat", "mofun.h
 ASSUMPTIONS = ["'means what the structure says' is decided against the documented read_data format as implemented by the harness' strict reader, not against LAMMPS itself",
                "elements are not compared (re-derived from masses on loading: C14)", "cells that are not LAMMPS-oriented are outside the domain (the writer refuses them)"]
 NRUNS = {"quick": 10000, "thorough": 150000}
-MUST_REACH = ["restarts", "idempotence_checks", "atomic_style", "tilted_cells", "faults_fired", "fs_readlines"]
+MUST_REACH = ["restarts", "idempotence_checks", "atomic_style", "tilted_cells", "faults_fired"]
 
 
 def generate(rng, tier):
-    w = {"copy": 1, "delete": 2, "delete_touching": 1, "pop": 0.5, "translate": 1, "extend": 3, "subset": 0.5}
-    spec = machine.gen_world(rng, nobj=(1, 2), nops=(0, 2), weights=w, restartable=True, cell_prob=0.9, max_atoms=25, empty_prob=0.0)
+    w = {"copy": 1, "delete": 2, "delete_touching": 1, "pop": 0.5, "translate": 1, "extend": 3, "subset": 0.5, "assign": 3, "restart": 3}
+    spec = machine.gen_world(rng, nobj=(1, 2), nops=(0, 3), weights=w, restartable=True, cell_prob=0.9, max_atoms=25, empty_prob=0.0)
     spec["cases"] = []
     for _ in range(rng.randint(1, 3)):
         via = rng.choice(["path", "file", "save_lmpdat"])
@@ -44,7 +44,7 @@ def execute(spec, ctx):
     fs = seams.install_fs(ctx)
     seams.install_random(ctx, {"seed": spec["seed"]})
     pool = machine.build_pool(spec, ctx, "c13")
-    machine.run_history(pool, spec["ops"], ctx, "c13")
+    machine.run_history(pool, spec["ops"], ctx, "c13", on_restart=lambda pool, op, k: c09._restart(ctx, fs, pool, op, k))
     for ci, case in enumerate(spec["cases"]):
         o = case["obj"] % len(pool.real)
         r, m = pool.real[o], pool.model[o]
